@@ -112,6 +112,17 @@ pub fn run(ctx: &mut Ctx) {
                 Line::new(build::line(2, 2, Some(1), b"A", &chars[cut.max(1).min(chars.len() - 1)..], fill as u32), decode),
             ]);
             shapes.push(vec![Line::new(build::line(9, 1, None, b"A", &chars[..1], 0), decode)]);
+            // one-character payloads with every fill count, unfragmented and as a closing fragment
+            for f in 0..6u32 {
+                shapes.push(vec![Line::new(build::line(1, 1, None, b"A", &chars[..1], f), decode)]);
+                shapes.push(vec![Line::new(build::line(2, 1, Some(5), b"A", b"15", 0), false), Line::new(build::line(2, 2, Some(5), b"A", &chars[..1], f), decode)]);
+            }
+            // long payloads: the type is the first character's, whatever the length (255, 256, 257, 384, 512, 513)
+            for len in [255usize, 256, 257, 384, 511, 512, 513] {
+                let long: Vec<u8> = (0..len).map(|i| if i == 0 { c } else { armor::ALPHABET[(i * 13 + v as usize) & 63] }).collect();
+                shapes.push(vec![Line::new(build::line(1, 1, None, b"A", &long, 0), false)]);
+                shapes.push(vec![Line::new(build::line(2, 1, None, b"A", &long, 0), false)]);
+            }
             for lines in shapes {
                 ctx.sweep_case("all-first-characters", &STD, &Input::History { lines }, check);
             }
